@@ -143,6 +143,8 @@ class Worker:
 
     def batch(self, reqs, timeout=120.0):
         r = self.call({"op": "batch", "reqs": reqs}, timeout=timeout)
+        if "res" not in r:
+            raise RuntimeError(f"batch failed: {json.dumps(r)[:1500]} for {json.dumps(reqs)[:1500]}")
         return r["res"]
 
 
